@@ -2557,15 +2557,19 @@ PPL::Polyhedron::simplify_using_context_assign(const Polyhedron& y) {
         if (sat_i.empty() && num_non_redundant_eq < needed_non_redundant_eq) {
           // `non_redundant_ineq_i' is actually masking an equality
           // and we are still looking for some masked inequalities.
-          // Iteration goes downwards, so the inequality comes from x_cs.
-          PPL_ASSERT(i >= y_cs_num_ineq);
+          // Iteration goes downwards, so the inequalities from x_cs
+          // are considered before those from y_cs.
           // Check if the equality is independent in eqs.
           Constraint masked_eq = non_redundant_ineq_i;
           masked_eq.set_is_line_or_equality();
           masked_eq.sign_normalize();
           if (add_to_system_and_check_independence(eqs, masked_eq)) {
-            // It is independent: add the _inequality_ to non_redundant_eq.
-            non_redundant_eq.insert(non_redundant_ineq_i);
+            // It is independent: add the _inequality_ to non_redundant_eq,
+            // unless it comes from y_cs (the context provides it anyway,
+            // and the result has to be an enlargement of x).
+            if (i >= y_cs_num_ineq) {
+              non_redundant_eq.insert(non_redundant_ineq_i);
+            }
             ++num_non_redundant_eq;
           }
         }
